@@ -13,6 +13,7 @@ mod e1j;
 mod e1j_model;
 mod e1u;
 mod e1u_model;
+mod e2;
 mod e3;
 mod e4;
 mod engine;
@@ -35,6 +36,8 @@ pub enum Eng {
     E1J,
     E3,
     E4,
+    E2U,
+    E2J,
 }
 
 impl Eng {
@@ -44,6 +47,8 @@ impl Eng {
             "e1-jura" => Some(Eng::E1J),
             "e3-broker" => Some(Eng::E3),
             "e4-strategy" => Some(Eng::E4),
+            "e2-uist-twin" => Some(Eng::E2U),
+            "e2-jura-twin" => Some(Eng::E2J),
             _ => None,
         }
     }
@@ -68,6 +73,14 @@ macro_rules! with_engine {
                 let $e = &e4::E4;
                 $body
             }
+            Eng::E2U => {
+                let $e = &e2::E2U;
+                $body
+            }
+            Eng::E2J => {
+                let $e = &e2::E2J;
+                $body
+            }
         }
     };
 }
@@ -79,6 +92,7 @@ fn plan(prop: &str) -> Vec<(Eng, u64, u64)> {
         "C18" => vec![(Eng::E1J, 200_000, 6_000_000)],
         "C01" | "C03" | "C07" | "C17" => vec![(Eng::E1U, 120_000, 3_000_000), (Eng::E1J, 120_000, 3_000_000)],
         "C04" | "C05" | "C06" | "C09" | "C10" | "C11" | "C12" => vec![(Eng::E3, 150_000, 5_000_000)],
+        "C20" => vec![(Eng::E2U, 100_000, 3_000_000), (Eng::E2J, 60_000, 2_000_000)],
         "C16" => vec![(Eng::E4, 60_000, 1_000_000)],
         "C08" => vec![(Eng::E1U, 60_000, 1_500_000), (Eng::E1J, 60_000, 1_500_000)],
         _ => vec![],
@@ -405,7 +419,7 @@ fn cmd_determinism(args: &[String]) {
     let seeds: u64 = arg_val(args, "--seeds").and_then(|s| s.parse().ok()).unwrap_or(2000);
     let jobs: usize = arg_val(args, "--jobs").and_then(|s| s.parse().ok()).unwrap_or(16);
     let base: u64 = arg_val(args, "--seed").and_then(|s| s.parse().ok()).unwrap_or(1);
-    let engines = [Eng::E1U, Eng::E1J, Eng::E3, Eng::E4];
+    let engines = [Eng::E1U, Eng::E1J, Eng::E3, Eng::E4, Eng::E2U, Eng::E2J];
     for eng in engines {
         let next = std::sync::atomic::AtomicU64::new(0);
         let results = std::sync::Mutex::new(Vec::<(u64, u64, u64)>::new());
